@@ -22,9 +22,6 @@
 #ifndef WMAX
 #define WMAX 70          /* largest width / precision */
 #endif
-#ifndef DMAX
-#define DMAX 1000        /* radix-10 digit kernel bound: |value| < DMAX (plus the concrete boundary values) */
-#endif
 #ifndef SLEN
 #define SLEN 5           /* longest %s argument */
 #endif
@@ -86,64 +83,7 @@ static int put_directive(char *f, int k, const struct dir *d) {
 }
 
 /* ---------------------------------------------------------------- the oracle: ISO C 7.21.6.1, one conversion specification */
-/* layout of one piece of output: lead x ' ', sign (0/1), prefix, nzero x '0', nbody body characters, trail x ' ' */
-struct piece {
-	int lead, nzero, nbody, trail, plen;
-	char sign, pfx0, pfx1;
-	int kind;            /* body: 0 = body[i], 1 = digits, least significant first: body[nbody-1-i] */
-	char body[64];
-};
-static int piece_len(const struct piece *p) { return p->lead + (p->sign ? 1 : 0) + p->plen + p->nzero + p->nbody + p->trail; }
-/* the byte at offset i of the piece (0 <= i < piece_len) */
-static int piece_at(const struct piece *p, int i) {
-	if(i < p->lead) return ' ';
-	i -= p->lead;
-	if(p->sign) { if(i == 0) return (unsigned char)p->sign; i--; }
-	if(i < p->plen) return i == 0 ? (unsigned char)p->pfx0 : (unsigned char)p->pfx1;
-	i -= p->plen;
-	if(i < p->nzero) return '0';
-	i -= p->nzero;
-	if(i < p->nbody) { int k = p->kind ? p->nbody - 1 - i : i; return k >= 0 && k < 64 ? (unsigned char)p->body[k] : -1; }
-	i -= p->nbody;
-	return i < p->trail ? ' ' : -1;
-}
-static void piece_clear(struct piece *p) { p->lead = p->nzero = p->nbody = p->trail = p->plen = 0; p->sign = p->pfx0 = p->pfx1 = 0; p->kind = 0; }
-static void piece_char(struct piece *p, char c) { piece_clear(p); p->nbody = 1; p->body[0] = c; }
-
-/* radix-10 digits of a magnitude; its own function so that the loop can be given its own unwinding bound */
-static int ref_dec(char *dig, uint64_t mag) { int nd = 0; while(mag) { dig[nd++] = (char)('0' + mag % 10); mag /= 10; } return nd; }
-#if DMAX <= 65536
-static int ref_dec_small(char *dig, uint16_t mag) { int nd = 0; while(mag) { dig[nd++] = (char)('0' + mag % 10); mag /= 10; } return nd; }
-#endif
-
-/* a number given as magnitude + sign: [spaces] [sign] [prefix] [zero padding] [precision zeros] digits [spaces] */
-static void ref_number(struct piece *p, uint64_t mag, int small, int radix, int upper, char sign, char pfx0, char pfx1,
-		int width, int left, int zeropad, int mindig, int force_octal_zero) {
-	const char *lower = "0123456789abcdef", *upperd = "0123456789ABCDEF";
-	int nd = 0;
-	piece_clear(p); p->kind = 1;
-	switch(radix) {
-	case 8: while(mag) { p->body[nd++] = lower[mag & 7]; mag >>= 3; } break;
-	case 16: while(mag) { p->body[nd++] = (upper ? upperd : lower)[mag & 15]; mag >>= 4; } break;
-	case 2: while(mag) { p->body[nd++] = lower[mag & 1]; mag >>= 1; } break;
-	default:
-#if DMAX <= 65536
-		if(small) nd = ref_dec_small(p->body, (uint16_t)mag); else
-#endif
-		nd = ref_dec(p->body, mag);
-		break;
-	}
-	int zeros = nd < mindig ? mindig - nd : 0;                              /* value 0 has no digits of its own: precision 0 => no characters, default precision 1 => "0" */
-	if(force_octal_zero && zeros == 0) zeros = 1;                           /* '#' for o: "increases the precision, if and only if necessary, to force the first digit of the result to be a zero" */
-	p->sign = sign; p->pfx0 = pfx0; p->pfx1 = pfx1; p->plen = pfx0 ? 2 : 0;
-	int body = (sign ? 1 : 0) + p->plen + zeros + nd;
-	int pad = width > body ? width - body : 0;
-	p->nbody = nd;
-	p->lead = (!left && !zeropad) ? pad : 0;
-	p->nzero = zeros + ((!left && zeropad) ? pad : 0);                      /* "leading zeros (following any indication of sign or base) are used to pad to the field width" */
-	p->trail = left ? pad : 0;
-}
-
+#include "c19_ref.h"
 /* the normalised meaning of the width / precision part of a directive */
 static void dir_norm(const struct dir *d, int *left, int *width, int *has_prec, int *prec) {
 	*left = d->left; *width = d->wmode ? d->width : 0;
@@ -197,15 +137,6 @@ static void ref_directive(struct piece *p, const struct dir *d, uint64_t raw, co
 	ref_number(p, mag, small, radix, d->conv == CV_X, sign, pfx0, pfx1, width, left, zeropad, mindig, force0);
 }
 
-/* the expected output stream: up to 7 pieces (separator, directive, separator, ...) */
-#define NPIECE 7
-static struct piece PC[NPIECE]; static int npiece;
-static int ref_total(void) { int t = 0; for(int k = 0; k < NPIECE; k++) if(k < npiece) t += piece_len(&PC[k]); return t; }
-static int ref_at(int i) {
-	for(int k = 0; k < NPIECE; k++) if(k < npiece) { int l = piece_len(&PC[k]); if(i < l) return piece_at(&PC[k], i); i -= l; }
-	return -1;
-}
-
 /* ranges and syntax of a directive the harness can assemble */
 static int dir_syntax(const struct dir *d) {
 	if(d->conv < 0 || d->conv >= CV_N || d->lm < 0 || d->lm >= LM_N) return 0;
@@ -246,15 +177,6 @@ typedef struct S_union_frg__arg frg_arg;
 static frg_arg arg_cache[12];
 static uint64_t slots[NSLOT];
 static char fmt[64], strarg[3][SLEN + 3];
-
-/* the sink of the library under test: every byte is compared with the oracle's byte at the same position */
-static int nput; static uint32_t put_hash;
-void c19_put(uint32_t c) {
-	VP_ASSERT((int)c == ref_at(nput), "printf: output byte equals ISO C at its position (no byte beyond the expected length)");
-	nput++; put_hash = put_hash * 31 + c;
-}
-#define CHECK_LENGTH(n, what) do { VP_ASSERT((n) == nput, "harness: sink saw every byte"); VP_ASSERT(nput == ref_total(), what); } while(0)
-#define OBSERVE_OUT() do { VP_OBSERVE(nput); VP_OBSERVE(put_hash); } while(0)
 
 /* the System V x86-64 va_list after the register save area is exhausted: every variadic argument occupies one 8-byte slot
  * of the overflow area (int-class arguments in the low bytes, upper bytes unspecified) */
@@ -390,6 +312,7 @@ void harness_layout(void) {
 		if(sep_on[j]) piece_char(&PC[npiece++], sep_ch[j]);
 		if(j < NDIR) ref_directive(&PC[npiece++], &D[j], arg_v[j] >= 0 ? slots[arg_v[j]] : 0, strarg[j], small[j]);
 	}
+	VP_ASSERT(ref_finish() < 256, "harness: bounds keep every output shorter than 256 bytes");
 	va_tag ap; mk_va(&ap);
 	nput = 0;
 	int n = (int)c19_vprintf(arg_cache, (uint8_t *)fmt, &ap);
@@ -474,6 +397,7 @@ void harness_opts(void) {
 	} else if(d->conv <= CV_X || d->conv >= CV_b)
 		slots[0] = constrain_value(d, slots[0], 0, &small);
 	npiece = 1; ref_directive(&PC[0], d, slots[0], strarg[0], small);
+	VP_ASSERT(ref_finish() < 256, "harness: bounds keep every output shorter than 256 bytes");
 	va_tag ap; mk_va(&ap);
 	uint32_t flags = (uint32_t)(d->left | (d->plus << 1) | (d->space << 2) | (d->alt << 3) | (d->zero << 4) | (d->group << 5));
 	int n;
@@ -551,14 +475,17 @@ void harness_digits(void) {
 	npiece = 1; nput = 0;
 	if(via == 0) {            /* print_digits: magnitude and sign given separately */
 		ref_number(&PC[0], number, RADIX == 10, RADIX, caps, sign, 0, 0, width, left, zero && !left, precision, 0);
+		ref_finish();
 		n = (int)c19_digits(number, negative, RADIX, width, precision, zero, left, plus, space, caps);
 	} else if(via == 1) {     /* print_int<int64_t>: the magnitude of the most negative value must not overflow */
 		int64_t v = (int64_t)number; if(negative) v = (int64_t)(0 - number);
 		ref_number(&PC[0], v < 0 ? 0 - (uint64_t)v : (uint64_t)v, RADIX == 10, RADIX, 0, v < 0 ? '-' : 0, 0, 0, width, 0, 0, precision, 0);
+		ref_finish();
 		n = (int)c19_int64((uint64_t)v, RADIX, width, precision);
 	} else {
 		int32_t v = (int32_t)number; if(negative) v = (int32_t)(0 - (uint32_t)number);
 		ref_number(&PC[0], v < 0 ? (uint64_t)(0 - (uint32_t)v) : (uint64_t)v, RADIX == 10, RADIX, 0, v < 0 ? '-' : 0, 0, 0, width, 0, 0, precision, 0);
+		ref_finish();
 		n = (int)c19_int32((uint32_t)v, RADIX, width, precision);
 	}
 	CHECK_LENGTH(n, "print_digits/print_int: number of bytes equals the reference");
@@ -591,7 +518,7 @@ int main(void) {
 			if(conv == CV_p && raw == 0) continue;                 /* glibc prints "(nil)"; frigg documents 0x0 */
 			char mine[256], libc[256]; int m, g;
 			npiece = 3; piece_char(&PC[0], '<'); ref_directive(&PC[1], &d, raw, str, vals[vi] < DMAX && vi < 10); piece_char(&PC[2], '>');
-			m = ref_total(); for(int i = 0; i < m && i < 255; i++) mine[i] = (char)ref_at(i); mine[m < 255 ? m : 255] = 0;
+			m = ref_finish(); for(int i = 0; i < m && i < 255; i++) mine[i] = (char)ref_at(i); mine[m < 255 ? m : 255] = 0;
 #define CALL(arg) (d.wmode == 2 ? (d.pmode == 2 ? snprintf(libc, sizeof libc, f, d.width, d.prec, arg) : snprintf(libc, sizeof libc, f, d.width, arg)) \
                                 : (d.pmode == 2 ? snprintf(libc, sizeof libc, f, d.prec, arg) : snprintf(libc, sizeof libc, f, arg)))
 			if(conv == CV_s) g = CALL(str);
